@@ -123,6 +123,14 @@ def py_case(kind, v):
             out.append(("py->literal|%s|reparse-of-lexical-differs|%s" % (kind, cls), {"value": repr(v), "lexical": lex, "back": repr(re)}))
     except Exception as e:  # noqa: BLE001
         out.append(("py->literal|%s|toPython-raises|%s" % (kind, cls), {"value": repr(v), "exc": repr(e)[:200]}))
+    # a literal made from a value is already normal: normalize() gives the same term, with the same value
+    try:
+        n = lit.normalize()
+        if str.__str__(n) != lex or n.datatype != lit.datatype or n.language != lit.language or n.ill_typed is True or not _pyeq(kind, v, n.toPython()):
+            out.append(("py->literal|%s|normalize()-changes-the-literal|%s" % (kind, cls), {"value": repr(v), "lexical": lex, "normalised": str.__str__(n), "datatype": str(n.datatype),
+                                                                                           "back": repr(n.toPython())}))
+    except Exception as e:  # noqa: BLE001
+        out.append(("py->literal|%s|normalize()-raises|%s" % (kind, cls), {"value": repr(v), "exc": repr(e)[:200]}))
     return out
 
 
